@@ -491,6 +491,48 @@ fn in_memory_ops(r: &Report) {
         let deep: Vec<(u32, Script)> = (0..140u32).map(|i| (if i < 31 { 1u32 << i } else { u32::MAX }, Script::from(vec![0x51, (i % 250) as u8]))).collect();
         op(r, "with_huffman_tree", json!("140 leaves with doubling weights"), || TaprootSpendInfo::with_huffman_tree(s, ik, deep.clone()).is_ok());
     }
+    // constructors and conversions with boundary arguments
+    {
+        use elements::confidential::{Asset, AssetBlindingFactor, Value as CValue, ValueBlindingFactor};
+        for v in [0u32, 1, 511, 512, 33_553_920, 33_553_921, 33_554_431, 33_554_432, u32::MAX - 511, u32::MAX] {
+            op(r, "Sequence::from_seconds", json!(v), || elements::Sequence::from_seconds_floor(v).is_ok() | elements::Sequence::from_seconds_ceil(v).is_ok());
+            op(r, "LockTime::from_height/time", json!(v), || elements::LockTime::from_height(v).is_ok() | elements::LockTime::from_time(v).is_ok());
+        }
+        let b = c04::build(&base);
+        let addr_unblinded = elements::Address::p2wpkh(&crate::psetgen::btc_pk(1), None, &elements::AddressParams::ELEMENTS);
+        let addr_blinded = elements::Address::p2wpkh(&crate::psetgen::btc_pk(1), Some(crate::psetgen::btc_pk(2).inner), &elements::AddressParams::ELEMENTS);
+        for value in [0u64, 1, u64::MAX / 2 + 1, u64::MAX] {
+            for (an, addr) in [("unblinded", &addr_unblinded), ("blinded", &addr_blinded)] {
+                for sm in 0..3usize {
+                    let secrets: Vec<elements::TxOutSecrets> = match sm { 0 => b.secrets.clone(), 1 => vec![], _ => vec![b.secrets[0]; 5] };
+                    let mut rng = crate::engine::DetRng::new(r.seed, 0xC10, 3);
+                    op(r, "TxOut::new_not_last_confidential", json!({"value": value, "address": an, "secrets": sm}), || {
+                        elements::TxOut::new_not_last_confidential(&mut rng, s, value, addr, c04::asset_a(), &secrets).is_ok()
+                    });
+                    let outs: Vec<&elements::TxOutSecrets> = secrets.iter().collect();
+                    op(r, "TxOut::new_last_confidential", json!({"value": value, "secrets": sm}), || {
+                        elements::TxOut::new_last_confidential(&mut rng, s, value, c04::asset_a(), Script::new(), crate::psetgen::btc_pk(2).inner, &secrets, &outs).is_ok()
+                    });
+                }
+            }
+            let abf = AssetBlindingFactor::from_slice(gen::tweak(1).as_ref()).unwrap();
+            let vbf = ValueBlindingFactor::from_slice(gen::tweak(2).as_ref()).unwrap();
+            op(r, "Value::new_confidential_from_assetid", json!(value), || CValue::new_confidential_from_assetid(s, value, c04::asset_a(), vbf, abf));
+            op(r, "ValueBlindingFactor::last", json!(value), || ValueBlindingFactor::last(s, value, abf, &[(value, abf, vbf)], &[(value, AssetBlindingFactor::zero(), ValueBlindingFactor::zero())]));
+            let _ = Asset::Null;
+        }
+        // blind_issuances on inputs with every combination of null / zero / explicit / confidential amounts
+        let vals = [CValue::Null, CValue::Explicit(0), CValue::Explicit(5), CValue::Explicit(u64::MAX), CValue::Confidential(crate::psetgen::comm(0))];
+        for a in &vals {
+            for k in &vals {
+                let mut txin = b.tx.input[0].clone();
+                txin.asset_issuance.amount = *a;
+                txin.asset_issuance.inflation_keys = *k;
+                let mut rng = crate::engine::DetRng::new(r.seed, 0xC10, 4);
+                op(r, "TxIn::blind_issuances", json!({"amount": format!("{:?}", a).chars().take(20).collect::<String>(), "keys": format!("{:?}", k).chars().take(20).collect::<String>()}), || txin.blind_issuances(s, &mut rng).is_ok());
+            }
+        }
+    }
     // opcode classification (Legacy context, the one used by instructions()/asm()) for all 256 opcodes.
     // classify() returns a plain value, so it is outside the property ("reports failure through Result or
     // Option"); the TapScript context is therefore not driven (it panics on OP_CHECKSIGADD and the Elements
